@@ -245,6 +245,10 @@ class Check(object):
             "hand-written models in coq/model are modelled, not verified: their agreement with /repo rests on the correspondence check",
         ] + (extra_trusted or [])
         self.coverage["trusted_base"] = tb
+        if self.replay_mode:
+            # a replay re-runs one recorded case; it must not overwrite the evidence of a full run
+            sys.stdout.flush()
+            return 1 if self.violations else 0
         common.write_evidence(self.pid, self.tier, self.seed, level, self.coverage, self.timer.s(), self.violations,
                               self.assumptions)
         sys.stdout.flush()
